@@ -37,7 +37,10 @@ MANIFEST = {
             "PrimaiteGame.update_agents (order and step_counter guards of update_reward / save_reward_to_history / total += current) are "
             "translated too and proved equal to the model for every component behaviour / every game — which is also the contract a "
             "plugin component gets: the step reward is the weighted left fold of whatever its calculate returns, its exception ends the "
-            "step; literal defaults; blunt text flags only for setup_reward_sharing, the two graph functions, __init__ / "
+            "step; science.topological_sort and science.graph_has_cycle (nested recursive closure over set / list containers, early "
+            "returns out of loops) are translated statement by statement into a second small language and proved, for every graph and "
+            "every unfolding depth, to return exactly the model's topoSort / hasCycle (so the graph theorems are about the code as "
+            "translated on this run); literal defaults; blunt text flags only for setup_reward_sharing, __init__ / "
             "register_component and the two one-line agent methods. Differential rig R-rew "
             "through the real PrimaiteGame.from_config (every sharing graph on <= 4 agents; several shares per agent; cycles of every "
             "length incl. self-sharing), the real science.py functions on EVERY graph with <= 4 nodes incl. self-loops and repeated "
@@ -67,7 +70,7 @@ MANIFEST = {
     "design_ref": "5/C10",
 }
 MODULES = ["PrimaiteModel.Props.C10", "PrimaiteModel.Props.C10Calc", "PrimaiteModel.Props.C10Total", "PrimaiteModel.Props.C10Float",
-           "PrimaiteModel.Props.C10Truth"]
+           "PrimaiteModel.Props.C10Truth", "PrimaiteModel.Props.C10Graph"]
 EXE = "drv_c10"
 
 
